@@ -59,7 +59,7 @@ c.ensures('pushes-a-call-frame-sharing-the-callers-view',
           'self._top.parent is old(self._top) and self._top.vars is old(self._top).vars and self._top.globals is old(self._top).globals '
           'and self._top.constants is old(self._top).constants and len(self._top.params) == 0 and self._top.params is not self._top.vars and result is self._top')
 
-c = contract(CS, 'CallStack.enter_loop', serves=['C03', 'C04'])
+c = contract(CS, 'CallStack.enter_loop', serves=['C03', 'C04', 'C05'])
 c.setup(_setup)
 c.ensures('loop-frame-shares-the-calls-variables-and-parameters',
           "typename(self._top) == 'LoopFrame' and self._top.parent is old(self._top) and self._top.vars is old(self._top).vars "
@@ -105,7 +105,7 @@ c.ensures('otherwise-a-local-of-this-call', 'index not in old(_call.params) and 
 c.ensures('readable-afterwards', 'self.get_variable(index) == value')
 
 # ---- leaving
-c = contract(CS, 'CallStack.unwind_loops', serves=['C03'])
+c = contract(CS, 'CallStack.unwind_loops', serves=['C03', 'C04', 'C05'])
 def _setup(b, case):
     S = _cs(b)
     I = b.I
@@ -120,12 +120,12 @@ c.cases([{'loops': l} for l in (0, 1, 2, 3)])
 c.bounded('0..3 loop frames above the call frame')
 c.ensures('pops-exactly-the-loop-frames-of-this-call', 'self._top is _call')
 
-c = contract(CS, 'CallStack.exit_routine', serves=['C03'])
+c = contract(CS, 'CallStack.exit_routine', serves=['C03', 'C05'])
 c.setup(_setup)
 c.cases([{'loops': 0}])
 c.ensures('back-in-the-caller', 'self._top is old(self._top).parent')
 
-c = contract(CS, 'CallStack.exit_loop', serves=['C03', 'C04'])
+c = contract(CS, 'CallStack.exit_loop', serves=['C03', 'C04', 'C05'])
 c.setup(_setup)
 c.cases([{'loops': 1}, {'loops': 2}])
 c.ensures('pops-one', 'self._top is old(self._top).parent')
@@ -169,7 +169,7 @@ def call_and_return(self, f, p, q, g, gv, a1, a2, newval, loops):
 '''
 for same_name in (0, 1):
     for loops in (0, 1, 2):
-        c = contract('bardolph/vm/machine.py', 'call_and_return', serves=['C03', 'C01'], src=SRC,
+        c = contract('bardolph/vm/machine.py', 'call_and_return', serves=['C03', 'C01', 'C04', 'C05'], src=SRC,
                      name='lemma:call-sequence[param %s global, %d loops]' % ('hides' if same_name else 'differs from', loops))
         def _setup(b, case, same_name=same_name, loops=loops):
             m = lib.machine(b, 'LOGICAL', lib.light_set_with(b, {}))
@@ -189,3 +189,50 @@ for same_name in (0, 1):
         c.ensures('global-never-changed-by-parameter-assignment', 'result[6] == gv')
         c.ensures('parameters-gone-afterwards', 'result[8] is None' + ('' if same_name else ' and result[7] is None'))
         c.ensures('delivers-the-value', 'result[9] == newval')
+
+
+# ---- a parameter hides everything of the same name, also a macro that was DEFINED (at run time) after the routine was
+#      compiled: what `define` stores must never shadow the parameters and locals of a call
+c = contract('bardolph/vm/machine.py', 'define_then_call', serves=['C03', 'C01'], name='lemma:define N v; call with parameter N', src='''
+def define_then_call(m, name, macro_value, arg, local_value):
+    from bardolph.vm.instruction import Instruction
+    m._program = [Instruction(OpCode.CONSTANT, name, macro_value)]
+    m._reg.pc = 0
+    m._constant()
+    cs = m._call_stack
+    cs.new_frame()
+    cs.put_param(name, arg)
+    cs.enter_routine()
+    seen = cs.get_variable(name)
+    cs.put_variable(name, local_value)
+    return (seen, cs.get_variable(name))
+''')
+def _setup(b, case):
+    m = lib.machine(b, 'LOGICAL', lib.light_set_with(b, {}))
+    return {'m': m, 'name': b.sym('atom', 'name'), 'macro_value': b.sym('int', 'macro_value'), 'arg': b.sym('int', 'arg'),
+            'local_value': b.sym('int', 'local_value')}
+c.setup(_setup)
+c.ensures('the-body-sees-its-parameter', 'result[0] == arg and result[1] == local_value')
+
+# ---- a named printf field shows the parameter's value, also when that value is 0 / empty / false
+c = contract('bardolph/vm/vm_io.py', 'printf_named_parameter', serves=['C03', 'C19'], name='lemma:printf "{p}" inside a call whose parameter p hides a global', src='''
+def printf_named_parameter(m, out, name, global_value, arg):
+    from bardolph.vm.instruction import Instruction
+    from bardolph.vm.vm_codes import OpCode
+    cs = m._call_stack
+    cs.put_variable(name, global_value)
+    cs.new_frame()
+    cs.put_param(name, arg)
+    cs.enter_routine()
+    fmt = '{' + name + '}'
+    VmIo._printf.__wrapped__(m._vm_io, Instruction(OpCode.OUT, IoOp.PRINTF, fmt), out)
+''')
+def _setup(b, case):
+    from pyvc.values import Opaque, PyList
+    m = lib.machine(b, 'LOGICAL', lib.light_set_with(b, {}))
+    calls = b.ghost('Calls', PyList())
+    out = Opaque('output', {'out': lambda I_, o, a, k: calls.items.append((o, 'out', tuple(a)))})
+    out.native = {'kind': 'generic'}
+    return {'m': m, 'out': out, 'name': 'level', 'global_value': b.sym('int', 'global_value'), 'arg': b.sym('int', 'arg')}
+c.setup(_setup)
+c.ensures('the-parameter-not-the-hidden-global', "len(ghost('Calls')) == 1 and ghost('Calls')[0][2][0] == '{level}'.format(level=arg)")
